@@ -507,8 +507,29 @@ class propagator_unrestricted(propagator_restricted):
         return hash(tuple(self.__dict__.values()))
 
 
+def _cpmc_exp_h1(ham_data: dict, dt: float) -> jax.Array:
+    """One-body half-step propagator for CPMC: exp(-dt K / 2) with K the one-body
+    (hopping) matrix itself. The discrete Hubbard-Stratonovich transformation treats
+    the interaction exactly, so the normal-ordering and mean-field one-body shifts of
+    the continuous-field (phaseless) propagator must not be included."""
+    return jnp.array(
+        [
+            jsp.linalg.expm(-dt * ham_data["h1"][0] / 2.0),
+            jsp.linalg.expm(-dt * ham_data["h1"][1] / 2.0),
+        ]
+    )
+
+
 class propagator_cpmc(propagator_unrestricted):
     """CPMC propagator for the Hubbard model with on-site interactions."""
+
+    @partial(jit, static_argnums=(0, 2))
+    def _build_propagation_intermediates(
+        self, ham_data: dict, trial: wave_function, wave_data: dict
+    ) -> dict:
+        ham_data = super()._build_propagation_intermediates(ham_data, trial, wave_data)
+        ham_data["exp_h1"] = _cpmc_exp_h1(ham_data, self.dt)
+        return ham_data
 
     def init_prop_data(
         self,
@@ -1236,6 +1257,14 @@ class propagator_cpmc_nn(propagator_cpmc, propagator_unrestricted):
 @dataclass
 class propagator_cpmc_nn_slow(propagator_unrestricted):
     neighbors: Optional[tuple] = None
+
+    @partial(jit, static_argnums=(0, 2))
+    def _build_propagation_intermediates(
+        self, ham_data: dict, trial: wave_function, wave_data: dict
+    ) -> dict:
+        ham_data = super()._build_propagation_intermediates(ham_data, trial, wave_data)
+        ham_data["exp_h1"] = _cpmc_exp_h1(ham_data, self.dt)
+        return ham_data
 
     def init_prop_data(
         self,
